@@ -251,7 +251,86 @@ def search_c01(seed, tier, only_modules=None, limit=5):
                         b3 = [repr(float(x) * 0.1) for x in ax[2]]
                         run(c01_binary, {"m": "boost_beta3", "s1": list(s1), "s2": list(s2), "p1": pts[0], "p2": b3}, out, limit)
                         n += 1
+    n += neutral_sweep(seed, ("rot", "boost", "vs", "lin"), out, limit)
     return out, n
+
+
+# ------------------------------------------------------------------------------------------------ neutral parameters (float64, real library)
+def _neutral_ops(dim):
+    """(family, label, thunk(v)) — operations with the NEUTRAL parameter: the result must be the operand itself"""
+    import vector
+    ops = [("rot", "rotateZ(0)", lambda v: v.rotateZ(0.0)), ("vs", "scale(1)", lambda v: v.scale(1.0)), ("vs", "v*1", lambda v: v * 1.0), ("vs", "v/1", lambda v: v / 1.0),
+           ("vs", "scale2D(1)", lambda v: v.scale2D(1.0)),
+           ("lin", "transform2D(identity)", lambda v: v.transform2D({"xx": 1.0, "xy": 0.0, "yx": 0.0, "yy": 1.0}))]
+    zero = {2: [vector.obj(x=0.0, y=0.0), vector.obj(rho=0.0, phi=0.0)],
+            3: [vector.obj(x=0.0, y=0.0, z=0.0), vector.obj(rho=0.0, phi=0.0, z=0.0)],
+            4: [vector.obj(x=0.0, y=0.0, z=0.0, t=0.0), vector.obj(rho=0.0, phi=0.0, z=0.0, t=0.0), vector.obj(x=0.0, y=0.0, z=0.0, tau=0.0)]}[dim]
+    for i, z in enumerate(zero):
+        ops += [("vs", f"add(zero#{i})", lambda v, z=z: v.add(z)), ("vs", f"subtract(zero#{i})", lambda v, z=z: v.subtract(z)), ("vs", f"v+zero#{i}", lambda v, z=z: v + z)]
+    if dim >= 3:
+        ax = [vector.obj(x=0.3, y=-1.2, z=0.5), vector.obj(rho=1.5, phi=0.4, eta=-0.7), vector.obj(x=1.0, y=2.0, theta=0.8)]
+        ops += [("rot", "rotateX(0)", lambda v: v.rotateX(0.0)), ("rot", "rotateY(0)", lambda v: v.rotateY(0.0)),
+                ("rot", "rotate_nautical(0,0,0)", lambda v: v.rotate_nautical(0.0, 0.0, 0.0)),
+                ("rot", "rotate_quaternion(1,0,0,0)", lambda v: v.rotate_quaternion(1.0, 0.0, 0.0, 0.0)),
+                ("vs", "scale3D(1)", lambda v: v.scale3D(1.0)),
+                ("lin", "transform3D(identity)", lambda v: v.transform3D({a + b: float(a == b) for a in "xyz" for b in "xyz"}))]
+        ops += [("rot", f"rotate_euler(0,0,0,{o})", lambda v, o=o: v.rotate_euler(0.0, 0.0, 0.0, o)) for o in ORDERS]
+        ops += [("rot", f"rotate_axis(axis#{i},0)", lambda v, a=a: v.rotate_axis(a, 0.0)) for i, a in enumerate(ax)]
+    if dim == 4:
+        z3 = [vector.obj(x=0.0, y=0.0, z=0.0), vector.obj(rho=0.0, phi=0.0, z=0.0)]
+        rest = [vector.obj(x=0.0, y=0.0, z=0.0, t=2.5), vector.obj(x=0.0, y=0.0, z=0.0, tau=2.5), vector.obj(rho=0.0, phi=0.0, z=0.0, t=0.75),
+                vector.obj(rho=0.0, phi=0.0, z=0.0, tau=0.75)]
+        ops += [("boost", f"boost{a}(beta=0)", lambda v, a=a: getattr(v, "boost" + a)(beta=0.0)) for a in "XYZ"]
+        ops += [("boost", f"boost{a}(gamma=1)", lambda v, a=a: getattr(v, "boost" + a)(gamma=1.0)) for a in "XYZ"]
+        for i, z in enumerate(z3):
+            ops += [("boost", f"boost_beta3(zero#{i})", lambda v, z=z: v.boost_beta3(z)), ("boost", f"boost(zero3#{i})", lambda v, z=z: v.boost(z)),
+                    ("boost", f"boostCM_of_beta3(zero#{i})", lambda v, z=z: v.boostCM_of_beta3(z)), ("boost", f"boostCM_of(zero3#{i})", lambda v, z=z: v.boostCM_of(z))]
+        for i, q in enumerate(rest):
+            ops += [("boost", f"boost_p4(rest#{i})", lambda v, q=q: v.boost_p4(q)), ("boost", f"boost(rest#{i})", lambda v, q=q: v.boost(q)),
+                    ("boost", f"boostCM_of_p4(rest#{i})", lambda v, q=q: v.boostCM_of_p4(q)), ("boost", f"boostCM_of(rest#{i})", lambda v, q=q: v.boostCM_of(q))]
+        ops += [("vs", "scale4D(1)", lambda v: v.scale4D(1.0)),
+                ("lin", "transform4D(identity)", lambda v: v.transform4D({a + b: float(a == b) for a in "xyzt" for b in "xyzt"}))]
+    return ops
+
+
+@check
+def neutral(a):
+    """an operation with the neutral parameter (zero velocity / zero angle / factor one / identity matrix / zero vector) returns the operand (float64)"""
+    import math
+    import vector
+    sig, st = tuple(a["sig"]), [float(x) for x in a["stored"]]
+    v = vector.obj(**dict(zip(C.signames(sig), st)))
+    fn = next(f for _, lab, f in _neutral_ops(len(sig) + 1) if lab == a["op"])
+    r = fn(v)
+    want = [float(v.x), float(v.y)] + ([float(v.z)] if len(sig) >= 2 else []) + ([float(v.t)] if len(sig) == 3 else [])
+    got = [float(r.x), float(r.y)] + ([float(r.z)] if len(sig) >= 2 else []) + ([float(r.t)] if len(sig) == 3 else [])
+    sc = max(1.0, max(abs(x) for x in want))
+    bad = [(i, g, w) for i, (g, w) in enumerate(zip(got, want)) if math.isnan(g) or abs(g - w) > 1e-9 * sc]
+    assert not bad, f"{a['op']} on {sig} stored {st}: Cartesian components {got}, the operand has {want}"
+
+
+def neutral_sweep(seed, families, out, limit):
+    """float64 objects in every stored system (timelike, spacelike-with-tau<0 for 4D) x every neutral-parameter operation of the families"""
+    r = C.rng(seed, "neutral")
+    n = 0
+    for dim in (2, 3, 4):
+        pts = [[float(x) for x in p] for p in points(dim, r, 1)[:3]]
+        if dim == 4:
+            q = pts[0][:3]
+            mag = sum(x * x for x in q) ** 0.5
+            pts.append(q + [0.6 * mag])          # spacelike, t > 0
+        for sig in C.SIGS[dim]:
+            for p in pts:
+                try:
+                    st = C.cart_to_stored(sig, p)
+                except Exception:  # noqa: BLE001
+                    continue
+                for fam_, lab, _ in _neutral_ops(dim):
+                    if fam_ not in families:
+                        continue
+                    n += 1
+                    run(neutral, {"op": lab, "sig": list(sig), "stored": [repr(x) for x in st]}, out, limit)
+    return n
 
 
 # ------------------------------------------------------------------------------------------------ C02: reference model
@@ -564,6 +643,7 @@ def search_c02(seed, tier, limit=5):
                         continue        # the difference of two forward timelike vectors need not be representable with tau
                     n += 1
                     run(c02_binary, {"m": m, "s1": list(sig), "s2": list(s2), "p1": pts[0], "p2": pts[1]}, out, limit)
+    n += neutral_sweep(seed, ("rot", "boost", "vs", "lin"), out, limit)
     return out, n
 
 
@@ -639,6 +719,7 @@ def search_c09(seed, tier, limit=5):
             for m, s_, p_ in (("boost_p4", s2, pts[0]), ("boost", s2, pts[1]), ("boostCM_of_p4", s2, pts[2]), ("boost_beta3", sb, b), ("boost", sb, b)):
                 n += 1
                 run(c01_binary, {"m": m, "s1": list(s1), "s2": list(s_), "p1": p, "p2": p_}, out, limit)
+    n += neutral_sweep(seed, ("boost",), out, limit)
     return out, n
 
 
@@ -711,6 +792,7 @@ def search_c10(seed, tier, limit=5):
                                "n": [repr(r.uniform(-2, 2)) for _ in range(3)], "a": repr(r.choice([0.9, -2.4, 3.7, 7.1])),
                                "a2": repr(r.uniform(-3, 3)), "orders": ORDERS if (tier == "thorough" or n % 4 == 1) else r.sample(ORDERS, 3)},
                     out, limit)
+    n += neutral_sweep(seed, ("rot",), out, limit)
     return out, n
 
 
@@ -790,6 +872,7 @@ def search_c11(seed, tier, limit=5):
                     trip = (pts[k], pts[k + 1], pts[k + 2]) if k % 2 == 0 else (pts[k + 2], pts[k], pts[k + 1])
                     run(c11_laws, {"s1": list(s1), "s2": list(s2), "s3": list(s3), "p1": trip[0], "p2": trip[1], "p3": trip[2],
                                    "k": repr(kk), "k2": repr(r.choice([1.5, 0.25]))}, out, limit)
+    n += neutral_sweep(seed, ("vs", "lin"), out, limit)
     return out, n
 
 
@@ -812,6 +895,27 @@ def c13_laws(a):
         assert v.mag >= 0 and v.mag2 >= 0, "mag/mag2 negative"
         z = p[2]
         assert mp.sign(v.costheta) == mp.sign(z) and mp.sign(v.cottheta) == mp.sign(z), "costheta/cottheta do not have the sign of z"
+    # the same ranges on the RESULTS of vector-valued operations (a result stored in polar / theta form must be stored in range)
+    k1, k2, ang = mp.mpf("-1.3"), mp.mpf("2.5"), mp.mpf("2.9")
+    results = [("scale(-1.3)", lambda: v.scale(k1)), ("scale(2.5)", lambda: v.scale(k2)), ("-v", lambda: -v), ("v * -1.3", lambda: v * k1), ("v / -1.3", lambda: v / k1),
+               ("rotateZ(2.9)", lambda: v.rotateZ(ang)), ("rotateZ(-2.9)", lambda: v.rotateZ(-ang)), ("unit()", lambda: v.unit()),
+               ("to_rhophi()", lambda: v.to_rhophi())]
+    if len(p) == len(q):
+        results += [("add", lambda: v.add(w)), ("subtract", lambda: v.subtract(w)), ("w.subtract(v)", lambda: w.subtract(v))]
+    if d >= 3:
+        results += [("rotateX(2.9)", lambda: v.rotateX(ang)), ("rotateY(-2.9)", lambda: v.rotateY(-ang)), ("to_rhophitheta()", lambda: v.to_rhophitheta()),
+                    ("scale3D(-1.3)", lambda: v.scale3D(k1)), ("scale2D(-1.3)", lambda: v.scale2D(k1)), ("neg3D", lambda: v.neg3D), ("neg2D", lambda: v.neg2D)]
+    if d == 4 and a["s1"][-1] == "t":
+        results += [("boostX(0.6)", lambda: v.boostX(beta=mp.mpf("0.6"))), ("boostZ(-0.8)", lambda: v.boostZ(beta=mp.mpf("-0.8"))), ("neg4D", lambda: v.neg4D)]
+    for label, thunk in results:
+        try:
+            r_ = thunk()
+        except Exception:  # noqa: BLE001   (singular / not representable for this storage: not a verdict)
+            continue
+        assert -pi - eps <= r_.phi <= pi + eps, f"phi of {label} = {str(r_.phi)[:24]} outside [-pi, pi]"
+        assert r_.rho >= -eps, f"rho of {label} negative"
+        if hasattr(r_, "theta") and d >= 3 and hasattr(r_, "longitudinal"):
+            assert -eps <= r_.theta <= pi + eps, f"theta of {label} = {str(r_.theta)[:24]} outside [0, pi]"
     na = mp.sqrt(sum(x * x for x in p[:3]))
     nb = mp.sqrt(sum(x * x for x in q[:3]))
     cosang = sum(x * y for x, y in zip(p[:3], q[:3])) / (na * nb)
